@@ -99,6 +99,19 @@ def g_fn(rng):
     return {"kind": "fn", "heads": heads, "choices": [rng.randrange(8) for _ in range(4)]}
 
 
+SCORE_PRIOS = [None, None, "1.0", "0.9", "0.5", "0.81", "0.25", "0.75", "0.1", "0.3", "0.729", "0.45"]
+
+
+def g_score(rng):
+    """Two match statements against one event: (mentioned parameters, flow priority) each."""
+    n = rng.randrange(0, 9)
+    side = lambda: {"m": rng.randrange(0, n + 1), "prio": rng.choice(SCORE_PRIOS)}  # noqa
+    a, b = side(), side()
+    if rng.random() < 0.3:
+        b["prio"] = a["prio"]
+    return {"kind": "score", "n": n, "a": a, "b": b}
+
+
 def gen_cases(rng, tier):
     n_prog, n_fn = (400, 6000) if tier == "quick" else (10000, 150000)
     cases = []
@@ -113,6 +126,8 @@ def gen_cases(rng, tier):
         cases.append(c)
     for _ in range(n_fn):
         cases.append(g_fn(rng))
+    for _ in range(2000 if tier == "quick" else 40000):
+        cases.append(g_score(rng))
     return cases
 
 
@@ -440,7 +455,71 @@ def run_fn(case):
     return obs
 
 
+def run_score(case):
+    """The real `_compute_event_comparison_score` on two reference events; exact (k, priority) beside the floats."""
+    sm = _SM
+    from fractions import Fraction
+
+    from nemoguardrails.colang.v2_x.runtime.flows import Event
+
+    from ..impl import valjson as vj
+
+    n = case["n"]
+    keys = [f"p{i}" for i in range(n)]
+    ev = Event(name="E", arguments={k: i for i, k in enumerate(keys)})
+    state = types.SimpleNamespace(actions={})
+    obs = {}
+    for side in ("a", "b"):
+        d = case[side]
+        ref = Event(name="E", arguments={k: i for i, k in enumerate(keys[: d["m"]])})
+        prio = float(d["prio"]) if d["prio"] else None
+        try:
+            f = float(sm._compute_event_comparison_score(state, ev, ref, prio))
+        except Exception as e:  # noqa
+            obs["exc"] = type(e).__name__
+            return obs
+        k = n - d["m"]
+        exact = (Fraction(prio) if prio else Fraction(1)) * Fraction(9, 10) ** k
+        obs[side] = {"f": f, "k": k, "prio": (list(vj.dyadic(prio)) if prio else None), "exact": [exact.numerator, exact.denominator]}
+    return obs
+
+
+def _score_near_tie(obs):
+    from fractions import Fraction
+
+    xa, xb = Fraction(*obs["a"]["exact"]), Fraction(*obs["b"]["exact"])
+    return xa != xb and abs(xa - xb) <= Fraction(1, 10 ** 9) * max(xa, xb)
+
+
 def run_impl(case):
+    if case["kind"] == "score":
+        obs = run_score(case)
+        if "exc" in obs:
+            obs.update(_oracle="matcher raised " + obs["exc"], _model=[], _sig=None, _nt=False, _tags=["kind:score", "exc"])
+            return obs
+        a, b = obs["a"], obs["b"]
+        near = _score_near_tie(obs)
+        orc = None
+        for x in (a, b):
+            want = float(x["exact"][0]) / float(x["exact"][1])
+            if abs(x["f"] - want) > 1e-9 * max(1.0, want):
+                orc = f"score {x['f']} is not priority * 0.9^(unmentioned parameters) = {want}"
+        if orc is None and a["prio"] == b["prio"] and a["k"] != b["k"]:
+            # "most specific = fewest unmentioned parameters" under equal priority
+            if (a["k"] < b["k"]) != (a["f"] > b["f"]):
+                orc = f"fewer unmentioned parameters ({a['k']} vs {b['k']}) do not give the larger score ({a['f']} vs {b['f']})"
+        obs["_oracle"] = orc
+        sign = (a["f"] > b["f"]) - (a["f"] < b["f"])
+        obs["_model"] = [[{"m": "C05.mcmp", "a": {"k": a["k"], "prio": a["prio"]}, "b": {"k": b["k"], "prio": b["prio"]}},
+                          {"score_sign": sign, "near": near}]]
+        obs["_sig"] = None
+        obs["_nt"] = a["k"] != b["k"] or a["prio"] != b["prio"]
+        obs["_tags"] = ["kind:score", "near-tie-skipped" if near else "order-compared", f"sign:{sign}"]
+        return obs
+    return _run_impl(case)
+
+
+def _run_impl(case):
     """Everything that is per case (oracle, model requests with the expected answers, tags) is computed here, in the
     worker process; the parent only ships the requests to the Lean driver and compares integers."""
     obs = run_prog(case) if case["kind"] == "prog" else run_fn(case)
@@ -517,6 +596,12 @@ def model_requests(case, obs):
 
 
 def compare_one(exp, m):
+    if "score_sign" in exp:
+        # hypothesis `hr` of more_specific_wins: the float order (which the ranks are taken from) is the exact order of
+        # priority * (9/10)^k; pairs whose exact values are closer than 1e-9 (relative) are outside the claim
+        if exp["near"] or m["cmp"] == exp["score_sign"]:
+            return None
+        return f"float order of the real scores ({exp['score_sign']}) differs from the exact order of prio*(num/den)^k ({m['cmp']})"
     if exp["dup"]:
         return "assumption violated: duplicate head uids in the input of _resolve_action_conflicts"
     if m["advancing"] != exp["adv"]:
